@@ -198,6 +198,60 @@ def count_obligations(prop_mod):
     return sum(per.values()), per
 
 
+def file_hash(path):
+    h = hashlib.sha256()
+    with open(path, "rb") as f:
+        for chunk in iter(lambda: f.read(1 << 20), b""):
+            h.update(chunk)
+    return h.hexdigest()
+
+
+def cache_key(stream, seed, tier, extra):
+    """a stream's output is a function of the harness binary (built from /repo's tree), the driver binary and the arguments"""
+    k = hashlib.sha256()
+    k.update(file_hash(HBIN).encode())
+    k.update(file_hash(DRIVER).encode())
+    k.update(repr((stream, seed, tier, extra, os.environ.get("VERIF_HIST_N", ""))).encode())
+    return k.hexdigest()[:24]
+
+
+def run_stream_cached(stream, mode, seed, tier, outdir, extra=None):
+    """run harness + model driver once per (binaries, stream, seed, tier); later checks of the same build reuse the files"""
+    import shutil
+    key = cache_key(stream, seed, tier, extra)
+    cdir = os.path.join(WORK, "cache", key)
+    if os.path.exists(os.path.join(cdir, "done")):
+        if os.path.abspath(cdir) != os.path.abspath(outdir):
+            if os.path.lexists(outdir):
+                if os.path.islink(outdir):
+                    os.unlink(outdir)
+                else:
+                    shutil.rmtree(outdir)
+            os.makedirs(os.path.dirname(outdir), exist_ok=True)
+            os.symlink(cdir, outdir)
+        return True, "", True, "", key
+    # evict old cache entries (keep the 12 most recent)
+    croot = os.path.join(WORK, "cache")
+    os.makedirs(croot, exist_ok=True)
+    ents = sorted((os.path.getmtime(os.path.join(croot, e)), e) for e in os.listdir(croot))
+    for _, e in ents[:-12]:
+        shutil.rmtree(os.path.join(croot, e), ignore_errors=True)
+    ok, log = run_stream(stream, seed, tier, cdir, extra)
+    ok2, log2 = (False, "")
+    if ok:
+        ok2, log2 = run_driver(mode, cdir)
+    if ok and ok2:
+        open(os.path.join(cdir, "done"), "w").write("1")
+    if os.path.lexists(outdir):
+        if os.path.islink(outdir):
+            os.unlink(outdir)
+        else:
+            shutil.rmtree(outdir)
+    os.makedirs(os.path.dirname(outdir), exist_ok=True)
+    os.symlink(cdir, outdir)
+    return ok, log, ok2, log2, key
+
+
 def run_stream(stream, seed, tier, outdir, extra=None, timeout=3000):
     os.makedirs(outdir, exist_ok=True)
     for f in ("ops.txt", "impl.txt", "model.txt", "stats.json"):
